@@ -329,6 +329,7 @@ Proof.
       split; [rewrite (base_close f nd bh sb' _ Hb'); congruence|].
       intros k. left. now rewrite Hfr.
     + rewrite copy_tail_body. rewrite (layer_create_below_file (tick sl) name d dn Hw Hno Hd Hdn Hdd).
+      rewrite (failed_create_no_entry (tick (tick sl)) name Hno).
       eexists. eexists. eexists. split; [reflexivity|].
       split; [rewrite (base_close f nd bh sb1 _ Hb1); exact Hv1 | now apply grown_of_view].
   - assert (Hd' : lookup sl (normalize_path (copy_dir name)) = None) by (rewrite Hkey; exact Hd).
